@@ -61,6 +61,20 @@ VerboseClauses(e) ==
    \cup Chk(Len(e.parts) >= 6 /\ \A k \in 1..5 : e.parts[k] = e.direct[k], "VerboseMatchesMode")
    \cup Chk(e.norefs = e.tot, "ReferencesSwitchNoRefs")
 
+\* the same with S_elements = TRUE (entropy of the elements subtracted): e.tot / e.parts with the option,
+\* e.tot0 / e.parts0 without it.  The total must drop by one amount S_ele and still be the sum of the
+\* verbose vector.  Known deviation of the library, named exactly: S_ele is subtracted from EVERY entry of
+\* the verbose vector (so the vector sums to total - (n-1) S_ele).
+SelClauses(e) ==
+   LET sele == Sub(e.tot0, e.tot)
+       sumOK == CloseIn(e.tot, SumSeq(e.parts), SetOf(e.parts), 7)
+       everyEntry == /\ Len(e.parts) = Len(e.parts0)
+                     /\ \A k \in Idx(e.parts) : CloseIn(e.parts[k], Sub(e.parts0[k], sele), {e.parts0[k], sele}, 7)
+   IN Chk(CloseIn(e.tot0, SumSeq(e.parts0), SetOf(e.parts0), 7), "SumOfVerbose")
+      \cup (IF sumOK THEN {}
+            ELSE IF everyEntry THEN {"SumOfVerbose_KnownSelementsInEveryEntry"} ELSE {"SumOfVerboseSelements"})
+      \cup Chk(CloseIn(sele, e.selref, {e.tot0, e.tot}, 6), "SelementsAmount")
+
 \* ---- harmonic oscillator pieces shared by Harmonic / Einstein / QRRHO
 \* x = theta/T (witness), ex = exp(-x) (sensor), y = ex/(1-ex) (witness), lg = ln(1-ex) (sensor)
 WitX(x, theta, T) == Close(Mul(x, T), theta, 7)
@@ -185,6 +199,7 @@ GeomClauses(e) ==
 Clauses(e) ==
    CASE e.ev = "thermo" -> ThermoClauses(e)
      [] e.ev = "verbose" -> VerboseClauses(e)
+     [] e.ev = "verbose_sel" -> SelClauses(e)
      [] e.ev = "harmonic" -> HarmonicClauses(e)
      [] e.ev = "einstein" -> EinsteinClauses(e)
      [] e.ev = "debye" -> DebyeClauses(e)
